@@ -264,4 +264,88 @@ theorem coderNormal_writes_split (cfg : Cfg) (hB : 0 < cfg.bufSize) (at_ tr : Bo
             simp [Ret.stops, hok, hw, hfull, he, ht, hsp]
 
 
+def okSteps (cs : List (List UInt8)) : List Step := cs.map (fun c => { out := c, ret := .ok })
+
+theorem chunksAux_spec (B : Nat) (hB : 0 < B) (ret : Ret) (hr : ret.stops = true) (cfg : Cfg) (hc : cfg.bufSize = B) :
+    ∀ (fuel : Nat) (l : List UInt8), l.length < fuel →
+      (chunksAux B fuel l).flatten = l ∧
+      libOutput (okSteps (chunksAux B fuel l) ++ [{ out := [], ret := ret }]) = l ∧
+      libFinal (okSteps (chunksAux B fuel l) ++ [{ out := [], ret := ret }]) = some ret ∧
+      libWarnings (okSteps (chunksAux B fuel l) ++ [{ out := [], ret := ret }]) = 0 ∧
+      stepsFit cfg (okSteps (chunksAux B fuel l) ++ [{ out := [], ret := ret }]) 0 = true := by
+  have hok : Ret.ok.stops = false := rfl
+  intro fuel
+  induction fuel with
+  | zero => intro l h; omega
+  | succ n ih =>
+    intro l h
+    unfold chunksAux
+    cases l with
+    | nil => simp [okSteps, libOutput, libFinal, libWarnings, stepsFit, hr]
+    | cons x xs =>
+      simp only [List.isEmpty_cons, Bool.false_eq_true, if_false]
+      by_cases hlen : B ≤ (x :: xs).length
+      · have hd : ((x :: xs).drop B).length < n := by simp at h ⊢; omega
+        obtain ⟨i1, i2, i3, i4, i5⟩ := ih _ hd
+        have htl : ((x :: xs).take B).length = B := by simp at hlen ⊢; omega
+        refine ⟨?_, ?_, ?_, ?_, ?_⟩
+        · simp only [List.flatten_cons, i1, List.take_append_drop]
+        · simp only [okSteps, List.map_cons, List.cons_append, libOutput, Ret.stops] at i2 ⊢
+          simp [i2]
+        · simp only [okSteps, List.map_cons, List.cons_append, libFinal, Ret.stops] at i3 ⊢
+          simpa using i3
+        · simp only [okSteps, List.map_cons, List.cons_append, libWarnings, Ret.stops] at i4 ⊢
+          simpa using i4
+        · simp only [okSteps, List.map_cons, List.cons_append, stepsFit] at i5 ⊢
+          simp [htl, hc, i5]
+      · have hlt : (x :: xs).length < B := by omega
+        have htake : (x :: xs).take B = x :: xs := List.take_of_length_le (by omega)
+        have hdrop : (x :: xs).drop B = [] := List.drop_of_length_le (by omega)
+        have hnil : chunksAux B n [] = [] := by
+          cases n with
+          | zero => rfl
+          | succ m => simp [chunksAux]
+        rw [htake, hdrop, hnil]
+        refine ⟨by simp, ?_, ?_, ?_, ?_⟩
+        · simp [okSteps, libOutput, hr, hok]
+        · simp [okSteps, libFinal, hr, hok]
+        · simp [okSteps, libWarnings, hr, hok]
+        · simp only [okSteps, List.map_cons, List.map_nil, List.cons_append, List.nil_append, stepsFit]
+          simp at hlt
+          have hne : ¬ xs.length + 1 = B := by omega
+          simp [hc, hne]
+          omega
+
+theorem warn_prefix (cfg : Cfg) (hB : 0 < cfg.bufSize) (S : List Step) : ∀ w : Nat,
+    libOutput (List.replicate w { out := [], ret := .unsupportedCheck } ++ S) = libOutput S ∧
+    libFinal (List.replicate w { out := [], ret := .unsupportedCheck } ++ S) = libFinal S ∧
+    libWarnings (List.replicate w { out := [], ret := .unsupportedCheck } ++ S) = w + libWarnings S ∧
+    stepsFit cfg (List.replicate w { out := [], ret := .unsupportedCheck } ++ S) 0 = stepsFit cfg S 0 := by
+  have hu : Ret.unsupportedCheck.stops = false := rfl
+  have hne : ¬ (0 = cfg.bufSize) := by omega
+  intro w
+  induction w with
+  | zero => simp
+  | succ n ih =>
+    obtain ⟨i1, i2, i3, i4⟩ := ih
+    simp only [List.replicate_succ, List.cons_append, libOutput, libFinal, libWarnings, stepsFit, hu]
+    simp [i1, i2, i3, i4, hne]
+    omega
+
+/-- The call sequence the model driver feeds to `coderNormal` is a legitimate one for the given library result. -/
+theorem canonicalSteps_spec (cfg : Cfg) (hB : 0 < cfg.bufSize) (w : Nat) (out : List UInt8) (ret : Ret)
+    (hr : ret.stops = true) :
+    libOutput (canonicalSteps cfg w out ret) = out ∧ libFinal (canonicalSteps cfg w out ret) = some ret ∧
+    libWarnings (canonicalSteps cfg w out ret) = w ∧ stepsFit cfg (canonicalSteps cfg w out ret) 0 = true := by
+  obtain ⟨_, c2, c3, c4, c5⟩ := chunksAux_spec cfg.bufSize hB ret hr cfg rfl (out.length + 1) out (by omega)
+  have hcs : canonicalSteps cfg w out ret =
+      List.replicate w { out := [], ret := .unsupportedCheck } ++
+        (okSteps (chunksAux cfg.bufSize (out.length + 1) out) ++ [{ out := [], ret := ret }]) := by
+    simp [canonicalSteps, chunks, okSteps]
+  obtain ⟨p1, p2, p3, p4⟩ := warn_prefix cfg hB
+    (okSteps (chunksAux cfg.bufSize (out.length + 1) out) ++ [{ out := [], ret := ret }]) w
+  rw [hcs, p1, p2, p3, p4, c2, c3, c4, c5]
+  simp
+
+
 end XzVerif.Sparse
